@@ -337,6 +337,8 @@ impl<'a> Oracle<'a> {
             }
         }
         let l_ret = l.ret.unwrap_or(u32::MAX);
+        // The time-to-live jiff's caches were measured to use (calib.rs).
+        let ttl = crate::c19::calib::ttl_ns(self.case().backend);
         ops.iter()
             .filter(|p| p.cache == l.cache)
             .filter(|p| {
@@ -352,7 +354,7 @@ impl<'a> Oracle<'a> {
             })
             .filter(|p| {
                 p.id == l.id
-                    || l.clk_inv <= p.clk_ret.saturating_add(TTL_NS)
+                    || l.clk_inv <= p.clk_ret.saturating_add(ttl)
             })
             .map(|p| (p, p.inv.max(reset_inv.unwrap_or(0))))
             .collect()
